@@ -40,10 +40,10 @@ Definition dec_state (o : pv) : option Shell.state :=
   end.
 
 (* class objects and the _parse_<x> methods of Settings as opaque callables with reserved numbers *)
-Definition cls_bool : nat := 1000%nat.
-Definition cls_str : nat := 1001%nat.
-Definition cls_int : nat := 1002%nat.
-Definition parser_ref (i : nat) : nat := (1010 + i)%nat.
+Definition cls_bool : nat := 40%nat.
+Definition cls_str : nat := 41%nat.
+Definition cls_int : nat := 42%nat.
+Definition parser_ref (i : nat) : nat := (50 + i)%nat.
 
 Fixpoint index_of (x : list Z) (l : list (list Z)) : option nat :=
   match l with
